@@ -27,7 +27,7 @@ interpolation resolution) and the 'numeric' block (each numeric option at its do
 Known findings (open, keyed narrowly by entry point, origin function, exception type and spectrum class): automatic KK on
 sparse spectra (<7 points or <2 points/decade, suffix ':sparse') and - for _approximate_transition_and_end_point and the
 differential-evolution wrapper - also on ordinary short spectra; 1-2 point spectra for the other entry points (suffix ':n<3');
-tr-nnls nnls iteration limit without an explicit max_iter; bht re-raising a LinAlgError when every attempt failed; lmfit's NaN
+tr-nnls nnls iteration limit without an explicit max_iter and with an explicit tiny one; bht re-raising a LinAlgError when every attempt failed; lmfit's NaN
 ValueError escaping the cnls test (seen once, not reproducible).  Repaired while this check was built (their inputs stay in the
 workload, reverts are self-test mutants): nested pools for cnls, the NaN branch of _calculate_statistic, singular normal matrix in
 complex-inv, Z-HIT num_points larger than the data, max() of an empty range in the transition heuristic, lmfit's AbortFitException
@@ -57,7 +57,7 @@ RULE = (
     "{1,2,3,7,9,-1,-7,-9} with narrow / one-sided / asymmetric ranges {(-0.1,0.1),(0,0.05),(-0.05,0.15),(-0.025,0.025),(0,2)} and rapid on/off "
     "on 8-12 point spectra (thorough also 41 points). A 'numeric' block puts every other numeric option at its documented extremes and at "
     "unusual interior values (log_F_ext -10..10, cnls max_nfev/timeout 1, Z-HIT num_points 1..n+1, polynomial_order up to num_points-1, "
-    "num_iterations 1/10, window width 1e-6..50 and centres off the data, tr-nnls lambda 1e-10..1e12 and the -1.5 mode boundary, negative lm "
+    "num_iterations 1/10, window width 1e-6..50 and centres off the data, tr-nnls lambda 1e-10..1e12 and the -1.5 mode boundary, max_iter 0/1/5, negative lm "
     "orders, bht shape_coeff 0.05..100 / num_samples 1 / maximum_symmetry 0 and 1, mrq-fit gaussian_width 0.01..2 / num_per_decade 0,1,1000, "
     "fit max_nfev 0,1,2,5 / timeout 1). Z-HIT: 6 smoothing x 5 interpolation x admittance x {custom weights, 3 named windows, auto} x "
     "(num_points, polynomial_order) cells incl. refused ones x window placement. DRT: tr-nnls modes x lambda {fixed,0,-1,-2} x "
@@ -662,6 +662,9 @@ def known_key(ent, ep, opts, exc, d, n):
     if ent == "tr-nnls" and isinstance(exc, RuntimeError) and msg.startswith("Maximum number of iterations") and foreign.endswith(":nnls") \
             and int(opts.get("max_iter", -1)) < 1:
         return "C18/tr-nnls/nnls-maxiter"
+    if ent == "tr-nnls" and ep == "drt" and type(exc) is RuntimeError and msg.startswith("Maximum number of iterations reached") \
+            and foreign.endswith(":nnls") and d["site"] == "_solve" and "max_iter" in opts and int(opts["max_iter"]) >= 1:
+        return "C18/tr-nnls/nnls-maxiter:explicit-max_iter"  # the caller's explicit budget is handed to scipy, whose RuntimeError escapes
     if ent == "kk" and isinstance(exc, AssertionError) and "daemonic processes are not allowed to have children" in msg:
         if ep != "kk" or (opts.get("test") == "cnls" and int(opts.get("num_F_ext_evaluations", 20)) > 0 and int(opts.get("num_procs", -1)) != 1):
             return "C18/kk/cnls-nested-pool"
@@ -936,6 +939,9 @@ def _numeric_extremes(n):
     for lv in (1e-10, 1.0, 1e3, 1e12, -1.5, -1.5000001, -1e9):
         dr.append(({"method": "tr-nnls", "lambda_value": lv, "max_iter": 100000}, 0.05))
     dr.append(({"method": "tr-nnls", "lambda_value": 1e-3, "max_iter": 0}, 0.05))
+    for mi in (1, 5):  # explicit tiny iteration budgets (open known finding C18/tr-nnls/nnls-maxiter:explicit-max_iter)
+        dr.append(({"method": "tr-nnls", "lambda_value": 1e-3, "max_iter": mi}, 0.05))
+        dr.append(({"method": "tr-nnls", "mode": "imaginary", "lambda_value": -1.0, "max_iter": mi}, 0.05))
     for mo in (-1, -5):
         dr.append(({"method": "lm", "model_order": mo, "num_procs": 1}, 0.05))
     for kw in ({"shape_coeff": 0.05}, {"shape_coeff": 5.0}, {"num_samples": 1}, {"maximum_symmetry": 0.0}, {"maximum_symmetry": 1.0}, {"shape_coeff": 0.0},
